@@ -147,7 +147,7 @@ SV_TOKS = ['I:5', 'I:-3', 'S:sab', 'S:s', 'P:nil', 'P:n0', 'A:nil', 'A:i5', 'A:t
 
 
 def gen_streams(tier, rng, scale=1):
-    n = (700 if tier == 'quick' else 12000) * scale
+    n = (2000 if tier == "quick" else 40000) * scale
     bodies = []
     r = rng.fork('scn')
     tg = INT_T + PA_T + ['fa', 'fp', 'ip', 'fv', 'mv', 'iv']      # weight the value-heavy and variadic targets
